@@ -89,6 +89,10 @@ def _snap_attach(self, self_bond_idx, other, other_bond_idx):
         "valid_idx": 0 <= self_bond_idx < len(self.bond_descriptors) and 0 <= other_bond_idx < len(other.bond_descriptors),
         "mass": self.weight,
     }
+    if s["valid_idx"]:
+        # the very descriptor objects that are about to react: each may be consumed once ("still unused")
+        s["bd_self"] = self.bond_descriptors[self_bond_idx]
+        s["bd_other"] = other.bond_descriptors[other_bond_idx]
     return s
 
 
@@ -105,6 +109,12 @@ def _post_attach(self, self_bond_idx, other, other_bond_idx, result, OLD):
     ev = {"d1": d1, "d2": d2, "a1": a1, "a2": a2 + N, "n_before": N, "n_other": len(o["oatoms"]), "order": d1[2], "node1": n1, "node2": n2 + o["gn"], "mass_before": o["mass"], "mass_after": result.weight, "oid": id(result), "n_open_after": len(result.bond_descriptors), "other_token": getattr(other, "_gbv_token", None)}
     eid = trace.emit("attach", **ev)
     result._gbv_hist = o["hist"] + o["ohist"] + [eid]
+    for which in ("bd_self", "bd_other"):
+        bd = o.get(which)
+        if bd is not None:
+            if getattr(bd, "_gbv_used", False):
+                V("c04.attach.descriptor-used-twice", f"the descriptor {rc.lib_triple(bd)} on atom {a1 if which == 'bd_self' else a2 + N} had already formed a bond and was bonded again", event=ev)
+            bd._gbv_used = True
     if not (rc.compat(d1, d2) and rc.compat(d2, d1)):
         V("c04.attach.bonded-incompatible", f"attach_other bonded {d1} with {d2}, which the conjugation rule forbids", event=ev)
     # atoms: old self ++ old other
